@@ -73,10 +73,14 @@ func editsWith(c Case, pos int) specs.ContainerEdits {
 	return e
 }
 
+// dottedKinds: spellings of a kind whose class has a dot - classes sharing all, some or none of their
+// characters with the vendor, dots at the start of the class's tail, several dots
+var dottedKinds = []string{"vendor.com/cl.ass", "vendor.com/dev.ice", "example.com/a.b", "v.w/w.v", "vendor.com/vendor.com", "a-b.c/x.y.z"}
+
 func build(c Case) *specs.Spec {
 	s := &specs.Spec{Version: "1.0.0", Kind: "vendor.com/class"}
-	if c.Place["dottedClass"] != 0 {
-		s.Kind = "vendor.com/cl.ass"
+	if k := c.Place["dottedClass"]; k != 0 {
+		s.Kind = dottedKinds[(k-1)%len(dottedKinds)]
 	}
 	if c.Place["specAnnotations"] != 0 {
 		s.Annotations = map[string]string{"k": "v"}
@@ -273,7 +277,7 @@ func space(n int, full bool) (int64, func(i int64) Case) {
 	for range devFeatures {
 		radix = append(radix, len(devOpts))
 	}
-	radix = append(radix, 2, 2, 2)
+	radix = append(radix, 2, 1+len(dottedKinds), 2)
 	ps := perms(n)
 	np := int64(len(ps))
 	return hx.Product(radix) * np, func(i int64) Case {
